@@ -4,6 +4,7 @@ import (
 	"fmt"
 	"math"
 	"reflect"
+	"strconv"
 	"strings"
 
 	"github.com/pkg/errors"
@@ -268,13 +269,13 @@ func (v *stringValidator) generate(out *codegen.Emitter, format string) {
 		}
 
 		out.Printlnf(
-			`if matched, _ := regexp.MatchString(`+"`%s`"+`, string(%s%s)); !matched {`,
-			v.pattern, pointerPrefix, value,
+			`if matched, _ := regexp.MatchString(%s, string(%s%s)); !matched {`,
+			goStringLiteral(v.pattern), pointerPrefix, value,
 		)
 		out.Indent(1)
 		out.Printlnf(
-			`return fmt.Errorf("field %%s pattern match: must match %%s", "%s", `+"`%s`"+`)`,
-			v.fieldName, v.pattern,
+			`return fmt.Errorf("field %%s pattern match: must match %%s", "%s", %s)`,
+			v.fieldName, goStringLiteral(v.pattern),
 		)
 		out.Indent(-1)
 		out.Printlnf("}")
@@ -416,6 +417,16 @@ func (v *numericValidator) valueOf(val float64) any {
 	}
 
 	return val
+}
+
+// goStringLiteral renders s as a Go string literal: a raw string literal, except when s contains a backquote
+// (which would end the literal) or a carriage return (which the language discards inside raw string literals).
+func goStringLiteral(s string) string {
+	if strings.ContainsAny(s, "`\r") {
+		return strconv.Quote(s)
+	}
+
+	return "`" + s + "`"
 }
 
 func getPlainName(fieldName string) string {
